@@ -274,6 +274,52 @@ def crash_oracle(it):
     return None
 
 
+def idle_model_terms(it):
+    """Timed.recv_all terms for the two timed receives of a timeout_idle observation (None if the record is unusable)"""
+    c, rec, ch = it["case"], it["rec"], it["child"]
+    if rec is None or rec["hang"] or not it.get("obs_calls"):
+        return None
+    queue = []
+    if ch["p_sent"]:
+        queue.append("msg")
+    # the message is whole at the receiver once its last fragment is out, even if the sender died before send() returned
+    if ch["t_first"] and ch["t_follow"] >= c["npk"] - 1:
+        queue.append("msg")
+    elif ch["t_first"]:
+        queue.append("torn")
+    rounds = [e["round"] for e in rec["log"] if isinstance(e, dict) and "round" in e]
+    terms = []
+    for rnd in (0, 1):
+        torn = 0
+        while queue and queue[0] == "torn":
+            queue.pop(0)
+            torn += 1
+        q = "QMsg" if queue else "QIdle"
+        if queue:
+            queue.pop(0)
+        got = next((o for r0, o in rounds if r0 == rnd), None)
+        out = "OMsg" if got == "OMsg" else "OEmpty"
+        terms.append("check_recv_all (MTimeout 250000) %d %s None %s [%s]" % (torn, q, out, "; ".join(it["obs_calls"][rnd])))
+    return "(%s) && (%s)" % tuple(terms)
+
+
+def idle_model_eval(chk, items, tag, report=True):
+    """the timed receives on the idle channel: their call sequence (flag, poll, recvmsg on the receiver's socket) against Timed.recv_all,
+    with one torn message in front when the sender died inside the multi-fragment send; returns (mismatches, evaluated, errors)"""
+    theader = "From Coq Require Import List Bool ZArith.\nFrom IPC Require Import Timed TimedCheck.\nImport ListNotations.\nOpen Scope Z_scope.\n"
+    ttodo = [(i, t) for i, t in ((i, idle_model_terms(it)) for i, it in enumerate(items) if it["case"]["observe"] == "timeout_idle") if t]
+    if not ttodo:
+        return 0, 0, []
+    tres, terrors = C.coq_eval_sharded(theader, ttodo, lambda p: "Eval vm_compute in (%d, %s)." % p, tag)
+    tbad = [(items[i], t) for i, t in ttodo if tres.get(i) != "true"]
+    if tbad and report:
+        it, t = tbad[0]
+        chk.unproved("correspondence TimedCheck.check_recv_all: the system calls of a timed receive on the idle channel after a crashed sender differ from Timed.recv_all on %d of %d kill points"
+                     % (len(tbad), len(ttodo)), {"input": it["case"], "child_progress": it["child"], "observed": it["rec"], "calls": it["obs_calls"], "model_term": t})
+    chk.coverage["timed_receives_after_crash_replayed_on_model"] = len(ttodo) - len(tbad)
+    return len(tbad), len(ttodo), (terrors or [])
+
+
 def crash_model_term(it):
     c, rec, ch = it["case"], it["rec"], it["child"]
     labels, mid = [], 0
@@ -327,7 +373,25 @@ def run_crash(binp, S, cases):
                 ch["t_follow"] += 1
             elif o["call"] == "close" and o["fd"] == tx:
                 ch["t_closed_tx"] = True
-        out.append({"case": c, "rec": by.get(c["id"]), "child": ch, "stderr": err if c["id"] not in by else "", "bad_cloexec": bad_cloexec})
+        obs_calls = None
+        if c["observe"] == "timeout_idle":
+            # the two timed receives of the observer: flag / poll / recvmsg calls on the receiver's own socket
+            obs_calls = []
+            for rnd in (0, 1):
+                seg = C.ops_between(trace, "obs %d.%d" % (c["id"], rnd), "endobs %d.%d" % (c["id"], rnd)) or []
+                main_fd = next((r["fd"] for r in seg if r["call"] in ("setfl", "poll", "recvmsg")), None)
+                calls = []
+                for r in seg:
+                    if r.get("fd") != main_fd:
+                        continue
+                    if r["call"] == "setfl":
+                        calls.append("CSetfl %s" % ("true" if r["nonblock"] else "false"))
+                    elif r["call"] == "poll":
+                        calls.append("CPoll (%d) %s" % (r["timeout"], "true" if r["res"] > 0 else "false"))
+                    elif r["call"] == "recvmsg":
+                        calls.append("CRecvmsg false")
+                obs_calls.append(calls)
+        out.append({"case": c, "rec": by.get(c["id"]), "child": ch, "stderr": err if c["id"] not in by else "", "bad_cloexec": bad_cloexec, "obs_calls": obs_calls})
     return out
 
 
@@ -376,13 +440,18 @@ def check_C12(chk):
     todo = [(i, crash_model_term(it)) for i, it in enumerate(items) if it["rec"] is not None and not it["rec"]["hang"] and it["case"]["observe"] != "timeout_idle"]
     res, errors = C.coq_eval_sharded(header, todo, lambda p: "Eval vm_compute in (%d, %s)." % p, "c12")
     bad = [items[i] for i, _ in todo if res.get(i) != "true"]
+    # the timed receives on the idle channel: their call sequence (flag, poll, recvmsg on the receiver's socket) against Timed.recv_all,
+    # with one torn message in front when the sender died inside the multi-fragment send
+    tbad_n, nt, terrors = idle_model_eval(chk, items, "c12t", report=not fails)
+    errors = (errors or []) + terrors
+    todo = todo + [None] * nt
     cov = chk.coverage
     cov["evaluations"] = len(items)
     cov["exhaustive"] = True
     cov["traces_validated_against_impl"] = len(todo)
     cov["distinct_nontrivial"] = len({(it["case"]["npk"], it["case"]["k"], it["case"]["survivor"], it["case"]["observe"], it["case"]["natt"], it["case"]["S"])
                                       for it in items if it["child"]["t_first"] and not it["child"]["t_returned"]})
-    cov["correspondence_mismatches"] = len(bad)
+    cov["correspondence_mismatches"] = len(bad) + tbad_n
     cov["rule"] = ("crash driver: forked sender sends one small message then a message of 1, 2, 3 or 6 packets (with/without attachments) and is killed "
                    "(SIGKILL raised by the shim) before its k-th tracked libc call, for EVERY k from 0 to one past its last call; 0 or 1 surviving "
                    "sender handle in the parent; observed by blocking recv, try_recv, try_recv_timeout and select; the child's progress is read from its trace, the "
@@ -399,7 +468,7 @@ def check_C12(chk):
                      {"input": it["case"], "child_progress": it["child"], "observed": it["rec"], "model_term": crash_model_term(it)})
     chk.assumptions += ["a killed process's descriptors are closed by the kernel in some order (modelled by LCrash: remaining chunks never sent, dedicated socket reaches end-of-file)",
                         "kill points are libc-call boundaries of the sending process (the shim raises SIGKILL before the k-th tracked call)"]
-    finish_proof(chk, proof_ok, fails, bad)
+    finish_proof(chk, proof_ok, fails, bad + [None] * tbad_n)
 
 
 # ------------------------------------------------------------------ C09
